@@ -169,6 +169,8 @@ fn vec_writer_matches_std() {
     } } } }
     println!("CASES {}", cases);
     println!("DISTINCT {}", cases);
-    for f in &fails { println!("FAIL: C13 {}", f); }
+    // a sink that misplaces or loses bytes also breaks "what was written is what is later read back, through
+    // any route" for guest-memory level transfers into a Vec (one call per region)
+    for f in &fails { println!("FAIL: C13 {}", f); println!("FAIL: C03 {}", f); }
     assert!(fails.is_empty());
 }
